@@ -117,6 +117,10 @@ def bounded(check, tier, seed):
               bound=f"pool {len(P)}", exhaustive=False)
     esc_runs = [FmtStr(Chunk("\x1b[1mx", {"fg": 31})), FmtStr(Chunk("a\x1b[", {"bold": True})), FmtStr(Chunk("p", {}), Chunk("\x1b[44mq", {"underline": True})),
                 FmtStr(Chunk("\x1b[1mx")), fmtstr("a", "red") + "\x1b[44mq"]      # (the last two: escape text in UNformatted runs)
+    # a style switched on with a truthy value that is not the object True (bold=1, underline=2: what `flags & 1` or a count gives; accepted
+    # by fmtstr - C14's listed finding): it displays as on and repr spells it as on
+    for val in (1,):
+        esc_runs += [FmtStr(Chunk("x", {"fg": 31, "bold": val}), Chunk(" tail", {})), FmtStr(Chunk("u", {"underline": val})), fmtstr("k", "blue", invert=val)]
     # text that holds an ESC / 0x9b WITHOUT the 'ESC[' introducer (two-character escapes, a lone ESC, the 8-bit CSI), formatted and not:
     # the helpers take such text verbatim, so these round-trip
     # one text per character class (zero-width characters OUTSIDE the BMP included: a \\uXXXX spelling cannot hold them), quotes, backslashes
